@@ -1,6 +1,6 @@
 """C07 (partial): equivocation evidence punishes exactly the signer, and only when valid (DESIGN.md 6.7)."""
 import json
-from check import Part
+from check import Part, ddmin
 
 ID = "C07"
 LEVEL_TEXT = "proof (partial: cryptographic validity is an oracle of the model; exercised by the driver with real signatures)"
@@ -332,6 +332,7 @@ CLAUSES = {1: "a rejected submission changed a validator", 2: "accepted double-v
            9: "misbehaviour accepted although nobody was punished", 10: "GetByzantineValidators is not the intersection of non-absent signers",
            11: "valid double-voting evidence against a punishable validator was rejected",
            12: "valid misbehaviour with a punishable byzantine validator was rejected",
+           13: "a validator without a BlockIDFlagCommit signature in BOTH commits (nil vote / absent) was punished by a misbehaviour",
            99: "observation count differs from op count"}
 
 
@@ -351,4 +352,4 @@ def histogram(part, c):
     return out
 
 
-PARTS = [Part("evidence", "c07", "evidence", gen, nontrivial=nontrivial, describe=describe)]
+PARTS = [Part("evidence", "c07", "evidence", gen, nontrivial=nontrivial, describe=describe, shrink=ddmin("acts"))]
